@@ -18,7 +18,7 @@ func init() {
 			pf.Producers, pf.Adds = [2]int{1, 2}, [2]int{2, 8}
 			pf.GatedPct = pick(r, []int{0, 50, 90})
 			pf.DelayPct, pf.MaxDelay = 30, 3
-			pf.Ctrl = []wop{{opTune, 6}, {opSettle, 5}, {opAdvance, 3}, {opStop, 2}, {opRestart, 3}, {opPause, 1}, {opResume, 1}, {opLongIdle, 2}}
+			pf.Ctrl = []wop{{opTune, 6}, {opSettle, 5}, {opAdvance, 3}, {opStop, 2}, {opRestart, 3}, {opPause, 1}, {opResume, 1}, {opLongIdle, 2}, {opCancelCtx, 1}}
 			pf.CtrlOps = [2]int{2, 10}
 			pf.CtrlGapPct = 20
 			pf.Tunes = []int{1, 2, 3, 4, 6, 8, 0}
@@ -90,7 +90,7 @@ func judgeC18(j *judgeCtx) {
 			if m := maxConc(c.Inv); c.Val > m {
 				j.add("C18.a", c.Ret, "%d worker goroutines are alive at a quiescent point, but the largest concurrency ever configured is %d", c.Val, m)
 			}
-			if st == lsS && c.Val > 0 {
+			if st == lsS && c.Val > 0 && (j.raceCancelAt == 0 || c.Inv < j.raceCancelAt) {
 				j.add("C18.e", c.Ret, "%d pool goroutines are still alive at a quiescent point after Stop returned", c.Val)
 			}
 		case 4:
@@ -102,7 +102,7 @@ func judgeC18(j *judgeCtx) {
 			}
 		case 31, 32, 33, 34:
 			name := map[int]string{31: "event-loop", 32: "idle-worker-remover", 33: "context-listener", 34: "other library"}[c.Arg]
-			if st == lsS && c.Val > 0 {
+			if st == lsS && c.Val > 0 && (j.raceCancelAt == 0 || c.Inv < j.raceCancelAt) {
 				j.add("C18.e", c.Ret, "%d %s goroutine(s) still alive at a quiescent point after Stop returned: leaked", c.Val, name)
 			}
 			if st == lsR && wd.cancelled == 0 {
